@@ -2,7 +2,8 @@
    Only statements, closed by [exact]/short glue, each followed by Print Assumptions. *)
 From stdpp Require Import gmap.
 From Coq Require Import NArith.
-From Synnax Require Import Core.Ontology Core.OntologyStr Core.OntologyProofs Core.Rbac Core.RbacProofs.
+From Synnax Require Import Core.Ontology Core.OntologyStr Core.OntologyProofs Core.Rbac Core.RbacProofs
+  Core.RbacSpec Core.RbacSim.
 Local Open Scope N_scope.
 
 (* (1) allowRequest is the formula of the property: every requested object is covered, by
@@ -29,6 +30,56 @@ Theorem C18_enforce_iff : forall st s act objs,
 Proof. exact enforce_spec. Qed.
 Print Assumptions C18_enforce_iff.
 
+(* (3) For every history of create / delete role and policy, SetOnRole, assign / unassign,
+   define / delete subject, begin / commit / abort (over good keys and subjects), and for
+   every request made at any point of it: the model's Enforce allows exactly when the
+   property's formula [permitted_a] holds of the set-based reference configuration that the
+   history builds (Core/RbacSpec.v: subjects, live roles, live policies, assignments,
+   attachments; [a_apply] gives the meaning of each operation) — in the view of the open
+   transaction and in the committed view. Since the request may directly follow any operation,
+   this contains the "very next check" clause for assign, unassign, create and delete. *)
+Theorem C18_history_enforce_iff : forall ops sub act objs,
+  Forall good_rop ops -> sub_ok sub ->
+  let s := rrun rfixed rinit ops in
+  let a := (corun rinit (ASys a_empty None) ops).2 in
+  (enforce (rcur s) sub act objs = Allow <-> permitted_a (acur a) sub act objs = true) /\
+  (enforce (rs_db s) sub act objs = Allow <-> permitted_a (as_db a) sub act objs = true).
+Proof. exact next_check. Qed.
+Print Assumptions C18_history_enforce_iff.
+
+(* the reference formula, spelled out *)
+Theorem C18_permitted_a_spec : forall c s act objs,
+  permitted_a c s act objs = true <->
+  s ∈ a_subj c /\
+  forall o, o ∈ objs ->
+    exists r, r ∈ a_roles c /\ (r, s) ∈ a_assign c /\
+      exists k p, (k, p) ∈ a_pols c /\ (r, k) ∈ a_attach c /\ act ∈ p_acts p /\
+        exists po, po ∈ p_objs p /\
+          ((is_type po = true /\ id_type po = id_type o) \/ (is_type po = false /\ po = o)).
+Proof. exact permitted_a_spec. Qed.
+Print Assumptions C18_permitted_a_spec.
+
+(* the same, as the acceptance of a whole run: every Enforce inside any history (through the
+   transaction or against the committed view) agrees with the reference *)
+Theorem C18_history_all_checks : forall ops,
+  Forall good_rop ops -> a_run rinit (ASys a_empty None) ops = true.
+Proof. exact history_agrees. Qed.
+Print Assumptions C18_history_all_checks.
+
+(* a denied request of an existing configuration is Deny or NotFound (unknown subject) *)
+Theorem C18_denied_cases : forall ops sub act objs,
+  Forall good_rop ops -> sub_ok sub ->
+  let st := rcur (rrun rfixed rinit ops) in
+  enforce st sub act objs <> Allow ->
+  enforce st sub act objs = Deny \/ enforce st sub act objs = Fail ENotFound.
+Proof.
+  intros ops sub act objs Hops Hsub st.
+  pose proof (corun_sim ops rinit (ASys a_empty None) sim_init Hops) as Hs.
+  rewrite corun_model in Hs. exact (proj2 (sim_enforce _ _ sub act objs (sim_cur _ _ Hs) Hsub)).
+Qed.
+Print Assumptions C18_denied_cases.
+
+(* ---- what the pinned upstream code did (findings F12, F26, repaired in /repo) ---- *)
 Definition u_1 : id := Id [117; 115; 101; 114] [117; 49].
 Definition k1 : str := [49].
 Definition ch1 : id := Id [99; 104] [49].
@@ -56,3 +107,28 @@ Theorem C18_f26_policy_delete_refuted :
   enforce (rcur (rrun rfixed rinit f26_ops)) u_1 act_r [ch1] = Deny.
 Proof. vm_compute. auto. Qed.
 Print Assumptions C18_f26_policy_delete_refuted.
+
+(* ---- non-vacuity: a history with two roles, type-level and instance-level policies, a
+   transaction, an unassign and a policy deletion meets the hypotheses; verdicts change with
+   the very next check ---- *)
+Definition u_2 : id := Id [117; 115; 101; 114] [117; 50].
+Definition k2 : str := [50].
+Definition ch_t : id := Id [99; 104] [].
+Definition ch2 : id := Id [99; 104] [50].
+Definition ex_rops : list rop :=
+  [RSubject u_1; RSubject u_2; RCreateRole k1 false true; RCreateRole k2 false true;
+   RCreatePolicy k1 (Pol [ch1] [act_r] false) true; RCreatePolicy k2 (Pol [ch_t] [act_r] false) true;
+   RSetOnRole k1 [k1]; RSetOnRole k2 [k2]; RAssign u_1 k1; RAssign u_2 k2].
+Example C18_nonvacuous :
+  Forall good_rop (ex_rops ++ [RBegin; RUnassign u_2 k2; RDeletePolicies [k1]]) /\ sub_ok u_1 /\
+  enforce (rcur (rrun rfixed rinit ex_rops)) u_1 act_r [ch1] = Allow /\
+  enforce (rcur (rrun rfixed rinit ex_rops)) u_1 act_r [ch1; ch2] = Deny /\
+  enforce (rcur (rrun rfixed rinit ex_rops)) u_2 act_r [ch1; ch2] = Allow /\
+  let s := rrun rfixed rinit (ex_rops ++ [RBegin; RUnassign u_2 k2; RDeletePolicies [k1]]) in
+  enforce (rcur s) u_2 act_r [ch2] = Deny /\ enforce (rs_db s) u_2 act_r [ch2] = Allow /\
+  enforce (rcur s) u_1 act_r [ch1] = Deny /\ enforce (rs_db s) u_1 act_r [ch1] = Allow.
+Proof.
+  split; [apply (bool_decide_unpack _); vm_compute; exact I|].
+  split; [apply (bool_decide_unpack _); vm_compute; exact I|].
+  vm_compute. repeat split; reflexivity.
+Qed.
